@@ -84,6 +84,12 @@ pub struct MinerCast {
 
 /// Genesis + accounts + ballast miner (with a large locked reward) + the subject miner.
 pub fn setup(vm: &Vm, ballast: bool) -> MinerCast {
+    setup_with(vm, ballast, None)
+}
+
+/// `poor_margin`: when Some(x), the subject miner is created with exactly its creation deposit + x
+/// (all of its funds are vesting; penalties must be drawn from the vesting table).
+pub fn setup_with(vm: &Vm, ballast: bool, poor_margin: Option<TokenAmount>) -> MinerCast {
     vm.bump_nonce.set(true);
     let o = vm.new_account(11, &fil(100_000)).0;
     let w = vm.new_account(12, &fil(100_000)).0;
@@ -96,12 +102,23 @@ pub fn setup(vm: &Vm, ballast: bool) -> MinerCast {
     let bm = create_miner(vm, bo, bo, POST_PROOF, &fil(1000)).unwrap_or_else(|r| panic!("SETUP-FAILED ballast miner: {}", r.tree()));
     let dep_bm: TokenAmount = vm.state_of::<MinerState>(bm).unwrap().locked_funds;
     if ballast {
-        for _ in 0..3 {
+        for _ in 0..40 {
             let r = award(vm, bm, &TokenAmount::zero(), &TokenAmount::zero());
             assert!(r.ok() && r.flat().iter().all(|i| i.ok()), "SETUP-FAILED ballast reward: {}", r.tree());
         }
     }
-    let m = create_miner(vm, o, w, POST_PROOF, &fil(1000)).unwrap_or_else(|r| panic!("SETUP-FAILED create miner: {}", r.tree()));
+    let value = match &poor_margin {
+        None => fil(1000),
+        Some(margin) => {
+            // learn the deposit from a trial creation, then roll back
+            let snap = vm.snapshot();
+            let t = create_miner(vm, o, w, POST_PROOF, &fil(1000)).unwrap_or_else(|r| panic!("SETUP-FAILED create miner: {}", r.tree()));
+            let d: TokenAmount = vm.state_of::<MinerState>(t).unwrap().locked_funds;
+            vm.restore(&snap);
+            d + margin
+        }
+    };
+    let m = create_miner(vm, o, w, POST_PROOF, &value).unwrap_or_else(|r| panic!("SETUP-FAILED create miner: {}", r.tree()));
     let dep_m: TokenAmount = vm.state_of::<MinerState>(m).unwrap().locked_funds;
     vm.bump_nonce.set(false);
     MinerCast { o, w, c, z, m, bm, bo, dep_m, dep_bm }
@@ -410,4 +427,21 @@ impl MinerView {
 /// Network-level power statistics.
 pub fn power_state(vm: &Vm) -> PowerState {
     vm.state_of(STORAGE_POWER_ACTOR_ADDR.id().unwrap()).unwrap()
+}
+
+pub fn report_fault(vm: &Vm, by: ActorID, m: ActorID, fault_epoch: ChainEpoch) -> Inv {
+    let p = fil_actor_miner::ReportConsensusFaultParams {
+        header1: mcvm::fake_fault_header(m, fault_epoch, 1),
+        header2: vec![2],
+        header_extra: vec![],
+    };
+    ext(vm, by, &id(m), &TokenAmount::zero(), MinerMethod::ReportConsensusFault as u64, Some(&p))
+}
+
+pub fn repay_debt(vm: &Vm, by: ActorID, m: ActorID, value: &TokenAmount) -> Inv {
+    ext(vm, by, &id(m), value, MinerMethod::RepayDebt as u64, NOP)
+}
+
+pub fn withdraw(vm: &Vm, by: ActorID, m: ActorID, amount: &TokenAmount) -> Inv {
+    ext(vm, by, &id(m), &TokenAmount::zero(), MinerMethod::WithdrawBalance as u64, Some(&fil_actor_miner::WithdrawBalanceParams { amount_requested: amount.clone() }))
 }
